@@ -14,6 +14,7 @@ import Driver.C03
 import Driver.AtomicWrite
 import Driver.Notebook
 import Driver.CacheLayer
+import Driver.Fuzzy
 
 namespace Driver
 
@@ -37,6 +38,7 @@ def dispatch (dom : String) (ops : Array String) : Array String :=
   | "atomicwrite" => AtomicWrite.runCase ops
   | "notebook" => Notebook.runCase ops
   | "cachelayer" => CacheLayer.runCase ops
+  | "fuzzy" => Fuzzy.runCase ops
   | _ => ops.map (fun _ => "unknown-domain")
 
 end Driver
